@@ -19,4 +19,3 @@ func vAssertRounded(man uint64, exp10 int, neg bool, bits uint64, id string)
 func vAssertGlueValue(lit []byte, bits uint64, id string)
 func vGlueOverflows(lit []byte) bool
 func vAssertScanValue(lit []byte, mant uint64, exp int, neg bool, trunc bool, id string)
-func vAssertShift(before, after *decimal, k int, left bool, id string)
